@@ -436,3 +436,12 @@ class CachingSym:
 
     def note(self, k, v):
         return self._inner.note(k, v)
+
+
+def untraced(fn, *args):
+    """Run a pure helper on concrete values outside the symbolic tracer (oracle-side library calls
+    such as `re` are very slow under it).  Under replay this is a plain call."""
+    if _CH is None:
+        return fn(*args)
+    with _CH.tr.NoTracing():
+        return fn(*args)
